@@ -304,7 +304,9 @@ def generate(template_path, with_mutants=False):
     for kind, val in parts:
         if kind == "text":
             out.append(val)
-            cout.append(val)
+            # a line `// CANARY[name]` at the end of a proof fn of the template becomes `assert(false)` in the vacuity file: the lemma's
+            # hypotheses (and the axioms it uses) must not be contradictory
+            cout.append(re.sub(r"^(\s*)// CANARY\[(\w+)\]\s*$", r"\1assert(false); /*canary:lemma:\2*/", val, flags=re.M))
             continue
         ex = val
         r = by_id[str(idx)]
